@@ -200,6 +200,9 @@ struct Shared<'w> {
     stop: AtomicBool,
     violation: Mutex<Option<ViolationInfo>>,
     events: Mutex<Vec<String>>,
+    /// off in free-running mode (engine M): a mutex taken by every thread after every operation
+    /// would order their memory accesses and hide data races from Miri's detector
+    log_events: bool,
 }
 
 impl<'w> Shared<'w> {
@@ -214,6 +217,9 @@ impl<'w> Shared<'w> {
         self.stop.load(Ordering::SeqCst)
     }
     fn event(&self, s: String) {
+        if !self.log_events {
+            return;
+        }
         let mut g = self.events.lock().unwrap();
         if g.len() >= 4096 {
             g.drain(0..2048);
@@ -942,6 +948,7 @@ fn run_workload_inner(w: &Workload, opts: &RunOptions) -> RunResult {
         stop: AtomicBool::new(false),
         violation: Mutex::new(None),
         events: Mutex::new(Vec::new()),
+        log_events: !opts.free_run,
     };
     let mut stats = RunStats::default();
     let mut trace: Vec<u8> = vec![];
